@@ -39,7 +39,7 @@ pub struct AuditCfg {
     pub tick: u32,
     pub seed: u64,
     pub steps: usize,
-    pub start_book: u8, // 0 empty, 1 bids only, 2 asks only, 3 two-sided
+    pub start_book: u8, // 0 empty, 1 bids only, 2 asks only, 3 two-sided, 4/5 asks only at the bottom of the price range
     pub subject: AgentSpec,
 }
 
@@ -68,11 +68,18 @@ fn audit_loop<E: AEnv>(cfg: &AuditCfg, env: &mut E, mut update: impl FnMut(&mut 
     let (tlo, thi) = sp.traders();
     let mut out = AuditOut { verdict: Ok(()), orders: 0, cancels: 0, limit: 0, market: 0 };
     // starting book, by a foreign trader
-    let base = 1000 * tick;
-    if cfg.start_book & 1 != 0 {
+    // start_book 4 / 5: a book at the very bottom of the price range (asks only, best ask = one tick,
+    // so the observed mid is half a tick)
+    let low = cfg.start_book >= 4;
+    let base = if low { 0 } else { 1000 * tick };
+    if low {
+        let n = if cfg.start_book == 4 { 4u32 } else { 2u32 };
+        for k in 1..n { env.submit(a, Side::Ask, 50, 9000, Some(k * tick)); }
+    }
+    if !low && cfg.start_book & 1 != 0 {
         for k in 1..4u32 { env.submit(a, Side::Bid, 50, 9000, Some(base - k * tick)); }
     }
-    if cfg.start_book & 2 != 0 {
+    if !low && cfg.start_book & 2 != 0 {
         for k in 1..4u32 { env.submit(a, Side::Ask, 50, 9000, Some(base + k * tick)); }
     }
     env.do_step(&mut rng);
@@ -285,7 +292,7 @@ pub fn gen_audit_cfg(rng: &mut Xoroshiro128StarStar) -> AuditCfg {
                   ["0", "1"][rng.gen_range(0..2)].into(), ["1/2", "1", "10", "10"][rng.gen_range(0..4)].into()],
     };
     AuditCfg { multi, asset, tick, seed: rng.gen_range(0..1_000_000), steps: [1usize, 5, 20, 60, 200][rng.gen_range(0..5)],
-               start_book: rng.gen_range(0..4), subject: AgentSpec { kind, asset, f } }
+               start_book: [0u8, 1, 2, 3, 3, 3, 4, 5][rng.gen_range(0..8)], subject: AgentSpec { kind, asset, f } }
 }
 
 // ---------------------------------------------------------------------------------------------
